@@ -84,6 +84,7 @@ class Probe(EventABC):
 
 
 class Rec(Logger):
+    def __len__(self): return 0      # falsy on purpose (see drivers.CountingLogger): the runner and the markets must test `is not None`
     def process_order_log(self, log): EV.append(("L_ord", log))
     def process_cancel_log(self, log): EV.append(("L_can", log))
     def process_execution_log(self, log): EV.append(("L_exe", log))
